@@ -53,7 +53,7 @@ def run(ctx):
     from ..model.grids import set_wide_longitudes
     set_wide_longitudes(True)      # also datasets in the 0..360 convention / straddling 180 degrees
     contracts.attach_all(obs, only={'ravel_dimensions', 'make_polygons_with_holes'})
-    total = ctx.n(500, 10000)
+    total = ctx.n(500, 40000)
     for case, rng in ctx.cases(total):
         conv = CONVENTIONS[case % len(CONVENTIONS)]
         spec = {'case': case, 'convention': conv}
